@@ -3,6 +3,7 @@ package c02
 import (
 	"fmt"
 	"os"
+	"regexp"
 	"strings"
 	"testing"
 
@@ -73,7 +74,7 @@ func judge(t hx.TB, test, src, x string, reducible bool) bool {
 		return false
 	}
 	// Domain gate (lazy): C02 quantifies over the module space of C01, i.e. LLVM-valid modules.
-	if r := llvmx.Accept(x); !r.OK {
+	if r := llvmx.Accept(llvm14ize(x)); !r.OK {
 		hx.Discard("violation_outside_domain(llvm_rejects_input)")
 		return false
 	}
@@ -81,12 +82,26 @@ func judge(t hx.TB, test, src, x string, reducible bool) bool {
 	if reducible {
 		min = reduce.Lines(x, 150, func(c string) bool {
 			c2, _ := fixpoint(c)
-			return c2 == class && llvmx.Accept(c).OK
+			return c2 == class && llvmx.Accept(llvm14ize(c)).OK
 		})
 		_, msg = fixpoint(min)
 	}
 	hx.Fail(t, test, "ll", "; source: "+src+"\n"+min, "[%s] %s", class, msg)
 	return false
+}
+
+// llvm14ize maps the keywords that the library models but LLVM 14 does not know to what LLVM 14 knows, so that
+// llvm-as-14 can still answer the domain question "is this a valid module apart from those keywords".
+var (
+	reUwtable   = regexp.MustCompile(`uwtable\((?:sync|async)\)`)
+	reAllocKind = regexp.MustCompile(` ?allockind\("[^"]*"\)`)
+	reGlobalSan = regexp.MustCompile(`, (?:no_sanitize_address|no_sanitize_hwaddress|sanitize_memtag|sanitize_address_dyninit)\b`)
+)
+
+func llvm14ize(x string) string {
+	x = reUwtable.ReplaceAllString(x, "uwtable")
+	x = reAllocKind.ReplaceAllString(x, "")
+	return reGlobalSan.ReplaceAllString(x, "")
 }
 
 func noncanonical(x, y string) bool { return x != y }
@@ -191,6 +206,7 @@ func TestGenerated(t *testing.T) {
 	hx.Check(t, test, hx.N(400, 12000), func(rt *rapid.T) {
 		cfg := gen.DefaultCfg()
 		cfg.Off = map[string]bool{"retattr-align": true, "freeze-metadata": true} // inputs the parser cannot read are outside C02's domain
+		cfg.LLVM15 = rapid.IntRange(0, 2).Draw(rt, "llvm15") == 0                 // keywords LLVM 14 does not know: the library's own fixpoint is the judge
 		m, feats := gen.Module(rt, cfg)
 		gen.SparseMetadataIDs(rt, m)
 		noise := gen.DrawNoiseWithAliases(rt)
